@@ -1175,6 +1175,13 @@ namespace ipr::impl {
             throw std::domain_error
                ("type_factoy::get_qualified: no qualifier");
 
+         // Qualified types are kept in normal form: qualifying an already
+         // qualified type merges the qualifiers over its main variant.
+         if (t.category == Category_code::Qualified) {
+            const auto& qt = static_cast<const ipr::Qualified&>(t);
+            return get_qualified(q | qt.qualifiers(), qt.main_variant());
+         }
+
          using rep = impl::Qualified::Rep;
          return *qualifieds.insert(rep{ q, t }, binary_compare());
       }
